@@ -40,6 +40,8 @@ def main():
         try: meta = json.load(open(os.path.join(d, "meta.json")))
         except Exception: pass
         rec = {"property": pid, "n": n, "summary": meta.get("summary", "")}
+        if meta.get("invalidated_by"):
+            rec["status"] = "invalidated by repair " + meta["invalidated_by"]; results.append(rec); print(pid, n, rec["status"]); continue
         rc, out = sh(f"git apply --check {patch}", cwd=REPO)
         if rc != 0:
             rec["status"] = "patch-does-not-apply"; results.append(rec); print(pid, n, rec["status"]); continue
